@@ -33,6 +33,9 @@ class Fx(object):
     def __init__(self):
         self.n = 0
         self.target = None
+        self.listing_at = None
+        self.lister = None
+        self.nested = False
         self.kinds = []
         self.real_mkstemp, self.real_aio_write, self.real_os = ds.mkstemp, ds.aio_write, ds.os
         fx = self
@@ -53,8 +56,18 @@ class Fx(object):
         ds.aio_write = lambda *a, **kw: (fx.effect('chunk'), fx.real_aio_write(*a, **kw))[1]
 
     def effect(self, kind):
+        if self.nested:
+            return
         self.n += 1
         self.kinds.append(kind)
+        if self.listing_at is not None and self.n == self.listing_at and self.lister is not None:
+            # somebody else lists the directories right now (the start-up scan of a queue that shares them, or of this very
+            # process: Queue._load_all runs concurrently with enqueue()): a listing only reads
+            self.nested = True
+            try:
+                self.lister()
+            finally:
+                self.nested = False
         if self.target is not None and self.n == self.target:
             raise Crash(kind)
 
@@ -85,7 +98,7 @@ class Rec(Relay):
         return None
 
 
-def run_history(ops, target, d, use_tmp=True):
+def run_history(ops, target, d, use_tmp=True, listing_at=None):
     """ops: list of (op, args) with symbolic message numbers; returns event list"""
     shutil.rmtree(d, ignore_errors=True)
     for s in ('env', 'meta', 'tmp'):
@@ -94,6 +107,15 @@ def run_history(ops, target, d, use_tmp=True):
     fx.target = target
     tmpd = os.path.join(d, 'tmp') if use_tmp else None     # None: the documented default (system temp directory)
     st = DiskStorage(os.path.join(d, 'env'), os.path.join(d, 'meta'), tmpd)
+    if listing_at is not None:
+        fx.listing_at = listing_at
+
+        def lister():
+            try:
+                list(DiskStorage(os.path.join(d, 'env'), os.path.join(d, 'meta'), tmpd).load())
+            except Exception:  # noqa
+                pass
+        fx.lister = lister
     ev, ids, raw = [], {}, {}
     crashed = None
     try:
@@ -243,6 +265,16 @@ def main():
             f.write(json.dumps({'id': shard + n * nshards, 'cls': 'crash-' + (kind[0] if kind else 'none') + ('' if use_tmp else '-notmpdir'), 'nids': max(1, nids),
                                 'ev': ev}, separators=(',', ':')) + '\n')
             n += 1
+        # the same history with a second storage object listing the directories before each effect, no crash: what a listing
+        # finds half-written is not its to tidy up
+        for at in range(1, neff + 1):
+            if not quick or at % 2 == h % 2:
+                ev, _, nids = run_history(ops, None, d, use_tmp, listing_at=at)
+                stats['executions'] += 1
+                stats['listings'] = stats.get('listings', 0) + 1
+                f.write(json.dumps({'id': shard + n * nshards, 'cls': 'listing-during' + ('' if use_tmp else '-notmpdir'), 'nids': max(1, nids),
+                                    'ev': ev}, separators=(',', ':')) + '\n')
+                n += 1
     shutil.rmtree(systmp, ignore_errors=True)
     f.write(json.dumps({'summary': stats}) + '\n')
     f.close()
